@@ -498,7 +498,18 @@ def loop_table(fn):
                 if (x.get("kind") == "UnaryOperator" and x.get("opcode") in ("++", "--")) or \
                         (x.get("kind") in ("BinaryOperator", "CompoundAssignOperator") and (x.get("opcode") or "").endswith("=") and x.get("opcode") not in ("==", "!=", "<=", ">=")):
                     pre.append(x)
-        straight = [x for x in pre + parts if x.get("kind") not in ("IfStmt", "ForStmt", "WhileStmt", "SwitchStmt", "CompoundStmt", "DoStmt")]
+        def is_effect(x):
+            return (x.get("kind") == "UnaryOperator" and x.get("opcode") in ("++", "--")) or \
+                (x.get("kind") in ("BinaryOperator", "CompoundAssignOperator") and (x.get("opcode") or "").endswith("=") and x.get("opcode") not in ("==", "!=", "<=", ">="))
+        straight = []
+        for x in pre + parts:
+            if x.get("kind") in ("IfStmt", "ForStmt", "WhileStmt", "SwitchStmt", "CompoundStmt", "DoStmt", "DeclStmt", "ReturnStmt", "BreakStmt", "ContinueStmt", "NullStmt"):
+                continue
+            # the effects embedded in an expression statement (`*dst++ = *first++`), innermost first
+            inner = [y for y in ir.walk_expr(x) if is_effect(y)]
+            straight += list(reversed(inner)) if inner else []
+        seen_ids = set()
+        straight = [x for x in straight if not (x.get("id") in seen_ids or seen_ids.add(x.get("id")))]
         step = norm.sym_step(straight)
         top_ids = {x.get("id") for x in straight}
         # locals of the body that hold the result of a traits find over (p, n): p <= result
@@ -607,6 +618,11 @@ def rule_extent(rep, S, cap, mode="write", R="C02.extent"):
         uint_params = {p.get("name") for p in params if ir.qtype(p) in ("unsigned long", "unsigned long long", "unsigned int")}
         it_params = [p.get("name") for p in params if re.search(r"const_iterator|::iterator", ir.wtype(p))]
         self_params = {p.get("name") for p in params if "xbasic_fixed_string" in ir.qtype(p)}
+        # pointers into a range the caller supplies: positions on a line of their own (symbol fp:<name>), so that a cursor over the source and a
+        # cursor over the own buffer can be related (`first != last`, distance(first, last))
+        fptr_params = {p.get("name") for p in params if ir.qtype(p).rstrip().endswith("*") and p.get("name") not in it_params}
+        fptr_pairs = [(a_.get("name"), b_.get("name")) for a_, b_ in zip(params, params[1:])
+                      if a_.get("name") in fptr_params and b_.get("name") in fptr_params and ir.qtype(a_) == ir.qtype(b_)]
         try:
             paths = flow.function_paths(fn, with_ctor_inits=False)
         except cj.AnalysisBroken:
@@ -642,8 +658,25 @@ def rule_extent(rep, S, cap, mode="write", R="C02.extent"):
                     yield path_, choice_
         # candidate loop invariants `v >= 0` are assumed at the loop head and must be re-established at every back edge; a candidate that
         # is not is dropped and the function is analysed again without it (induction, to a fixpoint)
+        # Two passes.  "exact": the first two iterations of every loop with the variables' exact values - a range that cannot be shown inside
+        # the buffer there is reported like one in straight-line code.  "induct": an arbitrary iteration, from the invariants - a range that
+        # cannot be shown inside the buffer there only means the invariants found do not suffice (inconclusive).
         inv_drop = set()
-        for _round in range(6):
+        has_loops = bool(loops)
+        schedule = [("exact", 0)] + ([("induct", r_) for r_ in range(6)] if has_loops else [])
+        paths_by = {"induct": paths}
+        if has_loops:
+            try:
+                paths_by["exact"] = flow.function_paths(fn, with_ctor_inits=False, unroll=2)
+            except cj.AnalysisBroken:
+                paths_by["exact"] = paths
+        else:
+            paths_by["exact"] = paths
+        results_by = {}
+        for pass_, _round in schedule:
+            if pass_ in results_by:
+                continue
+            paths = paths_by[pass_]
             results = {}
             inv_failed = set()
             pending = [(p_, c_, ()) for p_, c_ in variants()]
@@ -663,12 +696,15 @@ def rule_extent(rep, S, cap, mode="write", R="C02.extent"):
                     nonneg.add("it:" + x)
                 if len(it_params) >= 2:
                     facts.append(Lin({"it:" + it_params[1]: 1, "it:" + it_params[0]: -1}))     # [first, last) is a valid range (caller contract)
+                for a_, b_ in fptr_pairs:
+                    facts.append(Lin({"fp:" + b_: 1, "fp:" + a_: -1}))                         # the same for a source range
                 fresh = [0]
 
                 def sym(prefix):
                     fresh[0] += 1
                     name = "%s#%d" % (prefix, fresh[0])
-                    nonneg.add(name)
+                    if not prefix.startswith("fp:"):
+                        nonneg.add(name)
                     return name
 
                 def val(t):
@@ -726,6 +762,10 @@ def rule_extent(rep, S, cap, mode="write", R="C02.extent"):
                             m, o = (a, b) if ci == 0 else (b, a)
                             facts.append(o - m)
                             return m
+                        if c == ("ref", "distance") and len(t) == 4:
+                            fa_, fb_ = foff(t[2]), foff(t[3])
+                            if fa_ is not None and fb_ is not None:
+                                return fb_ - fa_
                         if c == ("ref", "distance") or c == ("ref", "length"):
                             key = "len:" + ir.show(t)[:40]
                             nonneg.add(key)
@@ -742,6 +782,10 @@ def rule_extent(rep, S, cap, mode="write", R="C02.extent"):
                         pa, pb = off(t[2]), off(t[3])
                         if t[1] == "-" and pa is not None and pb is not None:
                             return pa - pb
+                        if t[1] == "-" and pa is None and pb is None:
+                            pa, pb = foff(t[2]), foff(t[3])
+                            if pa is not None and pb is not None:
+                                return pa - pb
                         a, b = val(t[2]), val(t[3])
                         if a is None or b is None:
                             return None
@@ -805,6 +849,30 @@ def rule_extent(rep, S, cap, mode="write", R="C02.extent"):
                                 return p_ + x
                     return None
 
+                def foff(t):
+                    """pointer into a caller-supplied range -> position on that range's own line, else None"""
+                    if t[0] == "cast":
+                        return foff(t[3])
+                    if t[0] == "ref":
+                        if ("fptr", t[1]) in env:
+                            return env[("fptr", t[1])]
+                        if t[1] in fptr_params and ("ptr", t[1]) not in env:
+                            return Lin({"fp:" + t[1]: 1})
+                        return None
+                    if t[0] == "un" and t[1] in ("++", "--", "post++", "post--"):
+                        a = foff(t[2])
+                        if a is None or t[1] in ("++", "--"):
+                            return a
+                        return a + Lin({"": 1 if t[1] == "post--" else -1})
+                    if t[0] == "bin" and t[1] == "=" and t[2][0] == "ref":
+                        return foff(t[2])
+                    if t[0] == "bin" and t[1] in ("+", "-"):
+                        p_ = foff(t[2])
+                        x = val(t[3]) if p_ is not None else None
+                        if p_ is not None and x is not None:
+                            return p_ + x if t[1] == "+" else p_ - x
+                    return None
+
                 def add_cond(t, truth):
                     while t[0] == "cast":
                         t = t[3]
@@ -827,6 +895,8 @@ def rule_extent(rep, S, cap, mode="write", R="C02.extent"):
                         a, b = val(t[2]), val(t[3])
                         if a is None or b is None:
                             a, b = off(t[2]), off(t[3])
+                        if a is None and b is None:
+                            a, b = foff(t[2]), foff(t[3])
                         if a is not None and b is not None:
                             facts.extend(linear.atom_facts(op, a, b))
                             if op == "!=":
@@ -861,22 +931,31 @@ def rule_extent(rep, S, cap, mode="write", R="C02.extent"):
 
                 def assign_local(name, rhs_t, op):
                     """effect of `name op rhs` / ++name / --name on the bindings"""
-                    isptr = ("ptr", name) in env or "*" in vtypes.get(name, "") or "pointer" in vtypes.get(name, "")
-                    key = ("ptr", name) if isptr else name
+                    isptr = ("ptr", name) in env or "*" in vtypes.get(name, "") or "pointer" in vtypes.get(name, "") or "iterator" in vtypes.get(name, "")
+                    isf = isptr and ("ptr", name) not in env and (("fptr", name) in env or name in fptr_params)
+                    key = ("fptr", name) if isf else (("ptr", name) if isptr else name)
                     pending_find.pop(name, None)
+                    rd = foff if isf else (off if isptr else val)
                     if op in ("++", "--"):
-                        cur = off(("ref", name)) if isptr else val(("ref", name))
+                        cur = rd(("ref", name))
                         if cur is not None:
                             env[key] = cur + Lin({"": 1 if op == "++" else -1})
                         return
-                    cur = off(("ref", name)) if isptr else val(("ref", name))
+                    cur = rd(("ref", name))
                     if op == "=":
                         fnd = is_find(rhs_t) if isptr else None
                         if fnd is not None:
                             pending_find[name] = fnd
                             env.pop(key, None)
                             return
-                        new_ = off(rhs_t) if isptr else val(rhs_t)
+                        new_ = rd(rhs_t)
+                        if new_ is None and isptr:
+                            # the pointer moves to the other kind of range
+                            env.pop(key, None)
+                            o2_ = (off if isf else foff)(rhs_t)
+                            if o2_ is not None:
+                                env[("ptr", name) if isf else ("fptr", name)] = o2_
+                            return
                     else:
                         dlt = val(rhs_t)
                         new_ = None if cur is None or dlt is None else (cur + dlt if op == "+=" else cur - dlt)
@@ -892,9 +971,14 @@ def rule_extent(rep, S, cap, mode="write", R="C02.extent"):
                     ordered against the initial value when the variable only moves one way, tied to the others by the sums one iteration
                     leaves unchanged, and not below zero when that is re-established at every back edge"""
                     syms = {}
+                    if pass_ == "exact":
+                        return
                     for name, info in L["mods"].items():
                         isptr = ("ptr", name) in env
                         key = ("ptr", name) if isptr else name
+                        if not isptr and (("fptr", name) in env or (name in fptr_params and name not in env)):
+                            isptr, key = True, ("fptr", name)
+                            env.setdefault(key, Lin({"fp:" + name: 1}))
                         if key not in env:
                             if not isptr and name in uint_params:
                                 env[name] = Lin({"p:" + name: 1})
@@ -926,7 +1010,7 @@ def rule_extent(rep, S, cap, mode="write", R="C02.extent"):
                     for (v_, bt_, kind_) in L["bounds"]:
                         if v_ not in syms or (L["id"], v_, kind_) in inv_drop:
                             continue
-                        bl_ = off(bt_) if syms[v_][2] != v_ else val(bt_)
+                        bl_ = val(bt_) if syms[v_][2] == v_ else (foff(bt_) if syms[v_][2][0] == "fptr" else off(bt_))
                         if bl_ is None:
                             continue
                         gap_ = (bl_ - syms[v_][1]) if kind_ == "ub" else (syms[v_][1] - bl_)
@@ -1017,9 +1101,12 @@ def rule_extent(rep, S, cap, mode="write", R="C02.extent"):
                         if fnd is not None:
                             pending_find[v.get("name")] = fnd
                             continue
+                        env.pop(("fptr", v.get("name")), None)
                         p_ = off(t)
                         if p_ is not None:
                             env[("ptr", v.get("name"))] = p_
+                        elif "*" in ir.qtype(v) and foff(t) is not None:
+                            env[("fptr", v.get("name"))] = foff(t)
                         continue
                     if st[0] != "ev":
                         continue
@@ -1041,7 +1128,7 @@ def rule_extent(rep, S, cap, mode="write", R="C02.extent"):
                         tgt = fs.member_target(d, n)
                         if tgt is not None and ir.has_body(tgt) and access.get(tgt.get("id"), "public") != "public" and depth_guard[0] < 6:
                             try:
-                                cps = flow.function_paths(tgt, with_ctor_inits=False)
+                                cps = flow.function_paths(tgt, with_ctor_inits=False, unroll=2 if pass_ == "exact" and has_loops else 1)
                             except cj.AnalysisBroken:
                                 cps = []
                             if not cps:
@@ -1073,9 +1160,15 @@ def rule_extent(rep, S, cap, mode="write", R="C02.extent"):
                                 else:
                                     pp = off(ta)
                                     saved[("ptr", nm_)] = env.get(("ptr", nm_))
+                                    saved[("fptr", nm_)] = env.get(("fptr", nm_))
                                     env.pop(("ptr", nm_), None)
+                                    env.pop(("fptr", nm_), None)
                                     if pp is not None:
                                         env[("ptr", nm_)] = pp
+                                    elif foff(ta) is not None:
+                                        env[("fptr", nm_)] = foff(ta)
+                                    else:
+                                        env[("fptr", nm_)] = Lin({sym("fp:arg:" + nm_): 1})      # hides a caller's pointer of the same name
                             callee_steps = cps[pick]
                             last_ = callee_steps[-1] if callee_steps else ("end",)
                             if last_[0] not in ("return", "end"):
@@ -1158,6 +1251,8 @@ def rule_extent(rep, S, cap, mode="write", R="C02.extent"):
                                       (a_[0] == "call" and a_[1][0] == "mem" and a_[1][2] in ("begin", "end") and a_[1][1] != ("this",)) for a_ in (args[0], args[1]))
                         if ln is None and not foreign:
                             b0 = None        # a source range that is neither in *this nor a caller-supplied iterator pair: not followed
+                        if ln is None and foreign and foff(args[0]) is not None and foff(args[1]) is not None:
+                            ln = foff(args[1]) - foff(args[0])
                         if ln is None and foreign:
                             key = "len:distance(%s, %s)" % (ir.show(args[0]), ir.show(args[1]))
                             alt = [k for k in nonneg if k.startswith("len:") and ir.show(args[0]) in k and ir.show(args[1]) in k]
@@ -1215,9 +1310,25 @@ def rule_extent(rep, S, cap, mode="write", R="C02.extent"):
                             results[key] = [n, "unknown", "the write %s here; the missing facts may be established in a helper / by the callers of this helper" % what]
                         else:
                             results[key] = [n, "bad", "the write %s from the checks on this path (%d facts): a write past the object's own N+1 characters disturbs adjacent memory" % (what, len(facts))]
-            if inv_failed <= inv_drop:
-                break
+            if pass_ == "exact" or inv_failed <= inv_drop:
+                results_by[pass_] = results
+                continue
             inv_drop |= inv_failed
+        results = {}
+        ex_, ind_ = results_by.get("exact", {}), results_by.get("induct")
+        if has_loops and ind_ is None:
+            results[("fix", 0)] = [fn, "unknown", "the loop invariants did not settle in 6 rounds"]
+            ind_ = {}
+        for key in list(ex_) + [k_ for k_ in (ind_ or {}) if k_ not in ex_]:
+            e_, h_ = ex_.get(key), (ind_ or {}).get(key)
+            if e_ is not None and e_[1] == "bad":
+                results[key] = e_
+            elif h_ is not None and h_[1] in ("bad", "unknown"):
+                results[key] = [h_[0], "unknown", h_[2] if h_[1] == "unknown" else h_[2] + " (for an arbitrary iteration of a loop, from the invariants found)"]
+            elif e_ is not None and e_[1] == "unknown":
+                results[key] = e_
+            else:
+                results[key] = h_ if h_ is not None else e_
         for n, verdict, det in results.values():
             cons = "`%s`" % d.text(n)[:70].replace("\n", " ")
             if verdict == "ok":
